@@ -59,7 +59,7 @@ func compareChildren(c store.Cursor, n *html.Node, path string) string {
 			}
 			var wantAttrs [][2]string
 			for _, a := range r.Attr {
-				if a.Key == "xmlns" || strings.HasPrefix(a.Key, "xmlns:") {
+				if a.Key == "xmlns" || a.Namespace == "xmlns" || strings.HasPrefix(a.Key, "xmlns:") { // HTML5 "adjust foreign attributes": xmlns:xlink in svg/math is namespace "xmlns", key "xlink"
 					continue
 				}
 				wantAttrs = append(wantAttrs, [2]string{localName(a.Key), a.Val})
